@@ -613,6 +613,14 @@ func (c *Collection) FindOne(ctx context.Context, filter interface{}, opts ...*o
 
 	// check list
 	if len(list) == 0 {
+		// check the projection even if no document matches
+		if projection != nil {
+			_, err = mongokit.ProjectList(list, projection)
+			if err != nil {
+				return &SingleResult{err: err}
+			}
+		}
+
 		return &SingleResult{}
 	}
 
